@@ -260,8 +260,19 @@ def judge(ctx, done):
 
     # ---- trace validation
     lines = []
+    corrupt = os.environ.get("C07_CORRUPT")     # binding self-test: falsify one expected value / recorded field
     for idx, (r, o) in enumerate(finished):
         c = r["case"]
+        if corrupt and r["cancel"] < 0 and c["hi"] > 3:
+            ctx.notes.append("C07_CORRUPT=%s applied to run %d" % (corrupt, idx))
+            if corrupt == "expected":
+                c = dict(c, lo=c["lo"] + 1, hi=c["hi"] + 1)
+                r["case"] = c
+            elif corrupt == "leak":
+                o["leak_grip_n"], o["leak_grip"] = 1, [dict(fn="selftest", state="chan send", n=1)]
+            elif corrupt == "work":
+                o["work_left"] = ["kvTmp-selftest"]
+            corrupt = None
         lines.append(dict(e="case", c=idx, lo=c["lo"], hi=c["hi"], k=r["cancel"], src=c["src"], need=c["need"], mono=c["mono"],
                           probe=bool(r.get("probe")), kinds=c["kinds"]))
         for ev in o["events"]:
@@ -360,6 +371,9 @@ def run(ctx):
 
     def bg():
         try:
+            if os.environ.get("C07_SKIP_MODEL"):      # development aid (mutation runs): real engine only
+                ctx.notes.append("C07_SKIP_MODEL set: the implementation-shaped model was not checked in this run")
+                return
             model_runs(ctx, model)
         except BaseException as e:   # re-raised in the main thread
             err.append(e)
@@ -367,7 +381,7 @@ def run(ctx):
     th.start()
     try:
         cases = gen_cases(ctx)
-        budget = 110 if quick else 1500
+        budget = 110 if quick else 1000
         runs, nclasses = select(ctx, cases, budget, (lambda c: 1 if ctx.rng.random() < 0.4 else 0) if quick else (lambda c: 2))
         probes = probe_runs(cases)
         if quick:
@@ -376,15 +390,16 @@ def run(ctx):
             probes = sorted(probes, key=lambda r: ctx.rng.random())[:80]
         # ---- phase 1: the runs the model of both.Process-as-written predicts to block
         cand = [c for c in cases if "both" in c["kinds"] and c["bothmax"] >= 1400 and len(c["prog"]) <= 3]
-        cand.sort(key=lambda c: (len(c["prog"]), c["g"]["shape"], c["bothmax"], case_key(c)))
-        aimed, shapes = [], set()
-        for c in cand:
-            sk = (c["g"]["shape"], c["prog"][0]["op"], c["prog"][-1]["op"])
-            if sk not in shapes:
-                shapes.add(sk)
-                aimed.append(dict(case=c, cancel=-1))
-            if len(aimed) >= (4 if quick else 8):
-                break
+        cand.sort(key=lambda c: (len(c["prog"]), c["bothmax"], case_key(c)))
+        aimed, seen_sk = [], set()
+        want = 4 if quick else 8
+        for rnd in (0, 1):      # first one run per graph family, then other start / both variants
+            for c in cand:
+                sk = (c["g"]["shape"],) if rnd == 0 else (c["g"]["shape"], c["prog"][0]["op"], c["prog"][-1]["op"])
+                if sk not in seen_sk and len(aimed) < want and not any(a["case"] is c for a in aimed):
+                    seen_sk.add(sk)
+                    seen_sk.add((c["g"]["shape"], c["prog"][0]["op"], c["prog"][-1]["op"]))
+                    aimed.append(dict(case=c, cancel=-1))
         if not aimed:
             raise Inconclusive("no generated run exceeds the both buffers")
         ctx.log("phase 1: %d runs aimed at the predicted both deadlock" % len(aimed))
